@@ -89,7 +89,10 @@ add("C12", "other",
     "invariants; result count = min(sample_count, whole frames present), values, shape, warning iff truncated, no uninitialised cell; a data "
     "section that does not START with the shorten magic never reaches the shorten decoder), for PCM and both G.711 codings with and without "
     "expansion; both G.711 tables equal the ITU-T expansion on all 256 codes (exhaustive); read_header accepts exactly the field combinations "
-    "with a known coding, non-zero counts and - for PCM only - a byte order. The byte-level header parsing and real files are bounded." + MIX, TB)
+    "with a known coding, non-zero counts and - for PCM only - a byte order, after a parse (line level: the bytes [0, hdrsize) split at newlines) "
+    "that leaves the stream at the data section for every header size >= 1024, raises IOError iff the file is shorter than 1024 bytes / the magic "
+    "is wrong / the size field is below 1024 / there is no end_head, and gives each of the six fields the value of its line before end_head. "
+    "The byte-level tokenisation and real files are bounded." + MIX, TB)
 add("C13", "other",
     "Proved (bit-vector VCs generated from the AST of the nested functions by guarded unrolling, one query per reader state): uvar_get(nbin) returns "
     "q * 2^nbin + field for a code of q zeros, a one and nbin bits, consumes exactly q + 1 + nbin bits and leaves the unread bits of its word "
@@ -130,7 +133,10 @@ add("C16", "other",
 add("C17", "other",
     "Proved: every statistics state reachable through accumulate satisfies the invariant under which _sanitize_stats's validity test (read from the "
     "source) accepts it on the first pass; the .npy / .npz / raw readers the reload goes through load exactly the given file and, for .npz, the "
-    "entry `key` or 'arr_0'. Real files for every target/key/compress/overwrite combination and save/load sequences on one path are bounded." + MIX, TB)
+    "entry `key` or 'arr_0'; Standardize.save, as an effect trace over an abstract archive map: ValueError and no I/O without statistics, one "
+    "np.save / tofile for .npy / other names, for .npz at most one load and exactly one savez / savez_compressed of base + {key: statistics} "
+    "with the first free 'arr_m' as default key, the new statistics winning over an equal key and every other entry kept. Real files for every "
+    "target/key/compress/overwrite combination and save/load sequences on one path are bounded." + MIX, TB)
 add("C18", "other",
     "Proved for 1-D signals with the default axis: Preemphasize.apply returns y[0]=x[0], y[i]=x[i]-coeff*x[i-1] with the OLD neighbour; Dither.apply "
     "adds coeff times one fresh RNG draw (so independent of the signal, linear in coeff); result dtype = input dtype; the input is stored into only "
